@@ -2,6 +2,7 @@ package main
 
 import (
 	"fmt"
+	"go/token"
 	"go/types"
 	"sort"
 	"strings"
@@ -153,9 +154,15 @@ func ruleX2(p *Program, r *Reporter) {
 		}
 		flds[f] = true
 	}
-	allowed := map[string]bool{
-		"(*cache.RowCache).Create": true, "(*cache.RowCache).Update": true, "(*cache.RowCache).Delete": true,
-		"cache.newRowCache": true, "(*cache.RowCache).newIndexes": true,
+	// the three maintenance operations, construction, and their private helpers
+	allowedFns := p.PrivateRegion(p.Fn("cache", "RowCache", "Create"), p.Fn("cache", "RowCache", "Update"), p.Fn("cache", "RowCache", "Delete"),
+		p.Fn("cache", "", "newRowCache"), p.Fn("cache", "RowCache", "newIndexes"))
+	allowed := map[string]bool{}
+	for fn := range allowedFns {
+		allowed[funcName(fn)] = true
+	}
+	if len(allowedFns) < 5 {
+		r.Anchor(id, "cache.(*RowCache).{Create,Update,Delete}, newRowCache, newIndexes")
 	}
 	// writes through the inner index maps too: r.indexes[i][k] = v, delete(r.indexes[i], k), set.add on stored sets
 	for _, fn := range p.srcFuncs {
@@ -256,47 +263,86 @@ func ruleX3(p *Program, r *Reporter) {
 			r.Anchor(id, "cache.(*RowCache)."+name)
 			continue
 		}
-		// blocks inside a loop that ranges over r.indexSpecs: blocks b with a path b ->* b
-		// whose loop header indexes a load of indexSpecs
-		var idxWrites, rowWrites []ssa.Instruction
-		inSpecLoop := map[ssa.Instruction]bool{}
-		for _, b := range fn.Blocks {
-			for _, ins := range b.Instrs {
-				var target ssa.Value
-				switch x := ins.(type) {
-				case *ssa.MapUpdate:
-					target = x.Map
-				case *ssa.Call:
-					if bi, ok := x.Call.Value.(*ssa.Builtin); ok && bi.Name() == "delete" {
-						target = x.Call.Args[0]
+		region := p.PrivateRegion(fn)
+		writesOf := func(g *ssa.Function) (idxW, rowW []ssa.Instruction) {
+			for _, b := range g.Blocks {
+				for _, ins := range b.Instrs {
+					var target ssa.Value
+					switch x := ins.(type) {
+					case *ssa.MapUpdate:
+						target = x.Map
+					case *ssa.Call:
+						if bi, ok := x.Call.Value.(*ssa.Builtin); ok && bi.Name() == "delete" {
+							target = x.Call.Args[0]
+						}
+					}
+					if target == nil {
+						continue
+					}
+					switch rootField(target, 0) {
+					case idx:
+						idxW = append(idxW, ins)
+					case rows:
+						rowW = append(rowW, ins)
 					}
 				}
-				if target == nil {
-					continue
-				}
-				switch rootField(target, 0) {
-				case idx:
-					idxWrites = append(idxWrites, ins)
-					if dominatedBySpecLoop(b, specs) {
-						inSpecLoop[ins] = true
-					}
-				case rows:
-					rowWrites = append(rowWrites, ins)
+			}
+			return
+		}
+		// index writes inside a loop over indexSpecs, in the operation or one of its private helpers
+		nIn := 0
+		helperWritesIdx := map[*ssa.Function]bool{}
+		for g := range region {
+			iw, _ := writesOf(g)
+			if len(iw) > 0 {
+				helperWritesIdx[g] = true
+			}
+			for _, w := range iw {
+				if dominatedBySpecLoop(w.Block(), specs) {
+					nIn++
 				}
 			}
 		}
-		nIn := 0
-		for range inSpecLoop {
-			nIn++
+		// a helper that writes one index entry, called from a loop over indexSpecs
+		for g := range region {
+			for _, b := range g.Blocks {
+				for _, ins := range b.Instrs {
+					if c, ok := ins.(*ssa.Call); ok {
+						if h := c.Call.StaticCallee(); h != nil && helperWritesIdx[h] && h != g && dominatedBySpecLoop(b, specs) {
+							nIn++
+						}
+					}
+				}
+			}
 		}
 		ok := nIn > 0
 		r.Ob(id, funcName(fn), "index maintenance loop", fn.Pos(), ok, true,
 			ifs(ok, fmt.Sprintf("%d index writes inside a loop over indexSpecs", nIn), name+" writes no index entry inside a loop over r.indexSpecs: some index is not maintained"))
-		okRows := len(rowWrites) > 0
+		// in the operation itself: no index-write event (a direct write, or a call to a helper
+		// that writes indexes) can follow the write of the row map
+		var idxEvents, rowEvents []ssa.Instruction
+		iw, rw := writesOf(fn)
+		idxEvents = append(idxEvents, iw...)
+		rowEvents = append(rowEvents, rw...)
+		for _, b := range fn.Blocks {
+			for _, ins := range b.Instrs {
+				if c, ok := ins.(*ssa.Call); ok {
+					if h := c.Call.StaticCallee(); h != nil && region[h] && h != fn {
+						if helperWritesIdx[h] {
+							idxEvents = append(idxEvents, ins)
+						}
+						if _, hr := writesOf(h); len(hr) > 0 {
+							rowEvents = append(rowEvents, ins)
+						}
+					}
+				}
+			}
+		}
+		okRows := len(rowEvents) > 0
 		fc := newFlowCtx(fn)
-		for _, rw := range rowWrites {
-			for _, iw := range idxWrites {
-				if fc.canFollow(rw, iw) && !fc.canFollow(iw, rw) {
+		for _, rw := range rowEvents {
+			for _, iw := range idxEvents {
+				if rw != iw && fc.canFollow(rw, iw) && !fc.canFollow(iw, rw) {
 					okRows = false
 				}
 			}
@@ -370,22 +416,85 @@ func ruleX4(p *Program, r *Reporter) {
 		r.Anchor(id, "return of Transaction.Transact")
 		return
 	}
+	rfe := p.Fn("ovsdb", "", "ResultFromError")
+	fcx := newFlowCtx(fn)
 	for i, c := range calls {
-		// order: each call dominates the next, and the last dominates the success return
+		// (a) order: each check dominates the next one / the final return
 		var next ssa.Instruction = last
-		nextName := "the success return"
+		nextName := "the final return"
 		if i+1 < len(calls) {
 			next = calls[i+1]
 			nextName = order[i+1]
 		}
 		dom := c.Block().Dominates(next.Block())
-		checked := errCheckedBefore(c, next)
-		ok := dom && checked
-		why := fmt.Sprintf("%s dominates %s and its error is tested before it", order[i], nextName)
-		if !dom {
+		// (b) the error is tested, and on the failing edge it is turned into an error result
+		// before the function returns; (c) a failed check does not run the following checks
+		var errVals []ssa.Value
+		if types.Identical(c.Type(), types.Universe.Lookup("error").Type()) {
+			errVals = append(errVals, c)
+		} else if tup, ok := c.Type().(*types.Tuple); ok {
+			if refs := c.Referrers(); refs != nil {
+				for _, ref := range *refs {
+					if ex, ok := ref.(*ssa.Extract); ok && types.Identical(tup.At(ex.Index).Type(), types.Universe.Lookup("error").Type()) {
+						errVals = append(errVals, ex)
+					}
+				}
+			}
+		}
+		var failEdge *ssa.BasicBlock
+		for _, b := range fn.Blocks {
+			iff, ok := b.Instrs[len(b.Instrs)-1].(*ssa.If)
+			if !ok {
+				continue
+			}
+			bo, ok := iff.Cond.(*ssa.BinOp)
+			if !ok || (bo.Op != token.NEQ && bo.Op != token.EQL) {
+				continue
+			}
+			var other ssa.Value
+			if isNilConst(bo.Y) {
+				other = bo.X
+			} else if isNilConst(bo.X) {
+				other = bo.Y
+			}
+			hit := false
+			for _, ev := range errVals {
+				if other == ev {
+					hit = true
+				}
+			}
+			if !hit {
+				continue
+			}
+			failEdge = b.Succs[0]
+			if bo.Op == token.EQL {
+				failEdge = b.Succs[1]
+			}
+		}
+		consumed, stops := false, true
+		if failEdge != nil && rfe != nil {
+			first := failEdge.Instrs[0]
+			esc, _ := escapesWithoutFrom(fn, failEdge, func(x ssa.Instruction) bool {
+				cc, ok := x.(*ssa.Call)
+				return ok && cc.Call.StaticCallee() == rfe
+			})
+			consumed = !esc
+			_ = first
+			if i+1 < len(calls) && (failEdge == calls[i+1].Block() || fcx.blockReach(failEdge, calls[i+1].Block())) {
+				stops = false
+			}
+		}
+		ok := dom && failEdge != nil && consumed && stops
+		why := fmt.Sprintf("%s precedes %s on every path; its error is tested and, when set, turned into an error result and the remaining checks are skipped", order[i], nextName)
+		switch {
+		case !dom:
 			why = fmt.Sprintf("%s does not precede %s on every path: a transaction can be reported successful without this commit-time check", order[i], nextName)
-		} else if !checked {
-			why = fmt.Sprintf("the error of %s is not tested (== nil edge) before %s", order[i], nextName)
+		case failEdge == nil:
+			why = fmt.Sprintf("the error of %s is never compared with nil", order[i])
+		case !consumed:
+			why = fmt.Sprintf("when %s fails, the function can return without converting the error into an error result: the transaction is reported successful and committed", order[i])
+		case !stops:
+			why = fmt.Sprintf("after %s failed, %s still runs", order[i], nextName)
 		}
 		r.Ob(id, funcName(fn), order[i]+" before "+nextName, c.Pos(), ok, true, why)
 	}
@@ -436,7 +545,10 @@ func ruleTWIRE(p *Program, r *Reporter) {
 			continue
 		}
 		found := 0
-		fns := append([]*ssa.Function{root}, root.AnonFuncs...)
+		fns := p.Reach(root)
+		if w.caller == "NewTableCache" {
+			fns = append([]*ssa.Function{root}, root.AnonFuncs...)
+		}
 		for _, fn := range fns {
 			for _, b := range fn.Blocks {
 				for _, ins := range b.Instrs {
